@@ -22,9 +22,9 @@ if ! (cd $H && go build -tags verif -o $VR/bin/check ./cmd/check 2>$VR/out/build
   echo "$SEED $PROP DETECTED (harness does not build against the change)"; cat $VR/out/build.err | head -5
 else
   (cd $VR && timeout 3600 $VR/bin/check $PROP $TIER > $VR/out/stdout.txt 2> $VR/out/stderr.txt); rc=$?
-  if [ $rc -eq 1 ]; then echo "$SEED $PROP DETECTED rc=1 $(grep -c VIOLATION $VR/out/stdout.txt) violation(s): $(grep -m1 'violation sig=' $VR/out/stderr.txt | cut -c1-300)";
+  if [ $rc -eq 1 ]; then echo "$SEED $PROP DETECTED rc=1 $(grep -a -c VIOLATION $VR/out/stdout.txt) violation(s): $(grep -a -m1 'violation sig=' $VR/out/stderr.txt | cut -c1-300)";
   elif [ $rc -eq 0 ]; then echo "$SEED $PROP MISSED rc=0";
-  else echo "$SEED $PROP INCONCLUSIVE rc=$rc $(grep -m1 INCONCLUSIVE $VR/out/stderr.txt | cut -c1-300)"; fi
+  else echo "$SEED $PROP INCONCLUSIVE rc=$rc $(grep -a -m1 INCONCLUSIVE $VR/out/stderr.txt | cut -c1-300)"; fi
 fi
 mkdir -p /tmp/csout; cp $VR/out/stderr.txt /tmp/csout/$SEED.$PROP.stderr.txt 2>/dev/null
 [ -n "${KEEP:-}" ] || { git -C /repo worktree remove --force $WT >/dev/null 2>&1; rm -rf $D; }
